@@ -131,6 +131,42 @@ func c15ViewGraph(r *core.Run) {
 							return f
 						}
 					}
+					// writing a mask bit through the view state: SetMaskAt toggles exactly the bit of the element the coordinate
+					// denotes (seen through the root), and nothing else
+					if b.T.IsMasked() && rt.IsMasked() {
+						i := 0
+						var fail *core.Fail
+						mask := append([]bool{}, mask...) // the tensor was built over the slice itself: keep the original bits
+						ref.ForCoords(b.View.Shape, func(c []int) {
+							if fail != nil {
+								return
+							}
+							cell := b.View.Cell[i]
+							i++
+							before := append([]bool{}, rt.Mask()...)
+							var e error
+							if o := call(func() error { e = b.T.SetMaskAt(!mask[cell], c...); return nil }); o.Class != "ok" || e != nil {
+								fail = core.F("wrong-mask", "setmaskat:refused", "SetMaskAt(%v) on view state %s: %v %s", c, atlas.PathString(path), e, o)
+								return
+							}
+							r.Op(1)
+							after := rt.Mask()
+							for k := range before {
+								want := before[k]
+								if k == cell {
+									want = !mask[cell]
+								}
+								if k >= len(after) || after[k] != want {
+									fail = core.F("wrong-mask", fmt.Sprintf("setmaskat:c%d", i-1), "SetMaskAt(%v, %v) on view state %s of shape %v: root mask %s -> %s, expected only the bit of element %d to become %v", !mask[cell], c, atlas.PathString(path), shape, bitsOf(before), bitsOf(after), cell, !mask[cell])
+									return
+								}
+							}
+							call(func() error { return b.T.SetMaskAt(mask[cell], c...) })
+						})
+						if fail != nil {
+							return fail
+						}
+					}
 					return nil
 				})
 			}
@@ -299,6 +335,7 @@ func c15PredViews(r *core.Run) {
 			preds = append(preds, p.name)
 		}
 	}
+	preds = append(preds, "ResetMask") // not a predicate, but the same kind of whole-mask write: clears the view's bits only
 	r.SetBound("pred_view_graph", fmt.Sprintf("shapes %v x every slice/transpose view state to depth 2 x predicates %v x {float64, int32} x {unmasked root, root with prior mask 0101.., 0011..} x {hard, soft}", shapes, preds))
 	for _, d := range []ref.DT{ref.Float64, ref.Int32} {
 		for _, shape := range shapes {
@@ -310,6 +347,9 @@ func c15PredViews(r *core.Run) {
 					if q.name == pn {
 						p = q
 					}
+				}
+				if pn == "ResetMask" {
+					p = maskPred{"ResetMask", false, func(a, x, y interface{}) bool { return false }}
 				}
 				if !r.Take() {
 					continue
@@ -398,7 +438,7 @@ func c15PredViews(r *core.Run) {
 									i++
 									inView[cell] = true
 									want := p.f(vals[cell], x, y)
-									if !soft {
+									if !soft && p.name != "ResetMask" {
 										want = want || pm[cell]
 									}
 									var m bool
